@@ -147,6 +147,38 @@ func TestVerifC01(t *testing.T) {
 			n++
 		}
 	}
+	// minimum length: user-added documents of exactly q, q+1 and 2q words (q = the run length the
+	// threshold implies), alone in the corpus and next to each other, at every threshold
+	for ti, th := range []float64{0.7, 0.8, 0.85, 0.9, 1.0} {
+		c := NewClassifier(th)
+		words := []string{"alpha", "bravo", "charlie", "delta", "echo", "foxtrot", "golf", "hotel", "india", "juliet", "kilo", "lima", "mike", "november", "oscar", "papa", "quebec", "romeo", "sierra", "tango", "uniform", "victor", "whiskey", "xray", "yankee", "zulu"}
+		var ds []vdoc
+		at := 0
+		for di, nw := range []int{c.q, c.q + 1, 2 * c.q} {
+			var ws []string
+			for k := 0; k < nw; k++ {
+				ws = append(ws, words[at%len(words)]+strings.Repeat("x", at/len(words)))
+				at++
+			}
+			sep := []string{" ", "\n", " "}[di]
+			d := vdoc{"License", fmt.Sprintf("MinLen-%d", nw), "a.txt", []byte(strings.Join(ws, sep) + "\n")}
+			c.AddContent(d.cat, d.name, d.variant, d.data)
+			ds = append(ds, d)
+		}
+		for i, sel := range [][]vdoc{{ds[0]}, {ds[1]}, {ds[2]}, {ds[1], ds[0], ds[2]}, {ds[0], ds[0]}} {
+			in := vplantInput(r.fork(uint64(77000+10*ti+i)), fmt.Sprintf("min%d_%d", ti, i), sel)
+			var res Results
+			pan, msg := catch(func() { res = c.Match(in.data) })
+			if pan {
+				o.verdict("C01", in.id, false, true, in.id, map[string]interface{}{"what": "panic " + msg, "threshold": th})
+				continue
+			}
+			w, k := voracleC01(c, in, res)
+			nchecked += k
+			o.verdict("C01", in.id, w == "", k > 0, fmt.Sprintf("min:%v:%d", th, i), map[string]interface{}{"what": w, "threshold": th, "q": c.q, "input_hex": vclip(hx(in.data))})
+			n++
+		}
+	}
 	o.stat("C01", map[string]interface{}{"inputs": n, "planted_copies_checked": nchecked, "thresholds": ths})
 }
 
@@ -739,12 +771,16 @@ func TestVerifC07(t *testing.T) {
 	}
 	vloadFiles()
 	cnt := 0
+	var corpusKeys []string
 	for i, d := range vpick(r.fork(3), n) {
 		rr := r.fork(uint64(700 + i))
 		var X []byte
-		switch i % 4 {
+		switch i % 5 {
 		case 0:
 			X = d.data
+		case 4:
+			// partial: the tail of the text is missing, nothing else changed
+			X = d.data[:len(d.data)*(80+rr.intn(12))/100]
 		case 1:
 			X = veditWords(rr, d.data, 100)
 		case 2:
@@ -761,9 +797,12 @@ func TestVerifC07(t *testing.T) {
 			continue
 		}
 		base := c.Match(X)
-		for _, pl := range []int{1, 7} {
-			pre := voovBlock(rr, pl)
-			post := voovBlock(rr, 1+rr.intn(3))
+		// blocks of several lines, and pads of a few words only (the whole input may then still
+		// be shorter than the corpus document a partial X comes from)
+		for pi, pad := range [][2]string{{voovBlock(rr, 1), voovBlock(rr, 1+rr.intn(3))}, {voovBlock(rr, 7), voovBlock(rr, 1+rr.intn(3))},
+			{voovLine(rr, 4+rr.intn(6)) + "\n", ""}, {voovLine(rr, 5+rr.intn(4)) + "\n", voovLine(rr, 1+rr.intn(2)) + "\n"}} {
+			pre, post := pad[0], pad[1]
+			pl := strings.Count(pre, "\n")
 			data := append(append([]byte(pre), X...), []byte(post)...)
 			got := c.Match(data)
 			dt := len(c.createTargetIndexedDocument([]byte(pre)).Tokens)
@@ -774,7 +813,18 @@ func TestVerifC07(t *testing.T) {
 				what = fmt.Sprintf("X alone: %s ; embedded after %d lines/%d words: %s", vshift(base, pl, dt), pl, dt, vshift(got, 0, 0))
 				sig = vclassifyC07(c, X, data, base, got)
 			}
-			o.verdictSig("C07", fmt.Sprintf("%d_%d", i, pl), what == "", len(base.Matches) > 0, fmt.Sprintf("pos:%s:%d", vhash(X), pl), sig, map[string]interface{}{"what": vclip(what), "doc": vkey(d), "kind": i % 4, "x_hex": vclip(hx(X)), "prefix_lines": pl})
+			var needs []string
+			if sig != "" {
+				// the classification stands only if the model of the unchanged code gives the same two
+				// answers: emit both inputs as `match` records (DESIGN §6 C07)
+				if corpusKeys == nil {
+					corpusKeys = vcorpusRecord(o, "full08", c)
+				}
+				needs = []string{fmt.Sprintf("kf%d_%d_X", i, pi), fmt.Sprintf("kf%d_%d_D", i, pi)}
+				vmatchCase(o, c, "full08", corpusKeys, needs[0], X, true)
+				vmatchCase(o, c, "full08", corpusKeys, needs[1], data, true)
+			}
+			o.verdictSigCorr("C07", fmt.Sprintf("%d_%d", i, pi), what == "", len(base.Matches) > 0, fmt.Sprintf("pos:%s:%d", vhash(X), pi), sig, needs, map[string]interface{}{"what": vclip(what), "doc": vkey(d), "kind": i % 5, "x_hex": vclip(hx(X)), "prefix_lines": pl})
 			cnt++
 		}
 	}
